@@ -393,6 +393,35 @@ def fam_out(ctx):
 OUT_CLASSES = [('Out', 1), ('ReplaceOut', 1), ('OffsetOut', 1), ('XOut', 2)]
 
 
+DEFAULT_METHODS = ['lag', 'lag2', 'lag3', 'lagud', 'lag2ud', 'lag3ud', 'range', 'exprange', 'curverange', 'unipolar',
+                   'bipolar', 'clip', 'fold', 'wrap', 'madd']
+
+
+def fam_defaults(ctx):
+    """convenience methods called WITHOUT arguments: the channel list's defaults are the single channel's defaults"""
+    m = M()
+    nse, ugn = m['nse'], m['ugn']
+    k = ctx.choose('method', len(DEFAULT_METHODS))
+    name = DEFAULT_METHODS[k]
+    n = 1 + ctx.choose('n', 2)
+    rec = {'mode': 'nrt', 'fam': 'defaults', 'sel': {'method': k, 'n': n - 1}}
+
+    def data(sub):
+        return {'key': f'c03:defaults:{sub}', 'replay': dict(rec, sub=sub)}
+    what = f'ChannelList[{n}].{name}()'
+
+    def multi():
+        return getattr(ugn.ChannelList([nse.LFNoise0.ar(300.0 + i) for i in range(n)]), name)()
+
+    def ref():
+        return [getattr(nse.LFNoise0.ar(300.0 + i), name)() for i in range(n)]
+    build_pair(multi, ref, data, what)
+    ctx.obligations += 1
+    ctx.discharged += 1
+    ctx.note('defaults')
+    return {'call': what}
+
+
 def fam_outs(ctx):
     """every output class at audio and control rate: a flat channel array with a scalar bus makes ONE output unit that
     carries all channels in order (the array is the unit's channel list, not one more argument to expand)"""
@@ -499,6 +528,8 @@ def job(j):
         h = fam_out
     elif fam == 'outs':
         h = fam_outs
+    elif fam == 'defaults':
+        h = fam_defaults
     else:
         h = fam_tuple
     st = explore(h, max_paths=20000, timeout_ms=20000, stop_on_violation=False)
@@ -560,6 +591,8 @@ def replay(rec):
             fam_out(ctx)
         elif fam == 'outs':
             fam_outs(_CCtx(dict(rec.get('sel', {}))))
+        elif fam == 'defaults':
+            fam_defaults(_CCtx(dict(rec.get('sel', {}))))
         else:
             fam_tuple(ctx)
     except Violation as v:
@@ -578,10 +611,10 @@ def main(tier, seed):
     allc = classes()
     cl = [c for c in QUICK_CLASSES if c in allc] if tier == 'quick' else allc
     jobs = [dict(fam='class', cls=c, npos=2 if tier == 'quick' else 3) for c in cl]
-    jobs += [dict(fam='op'), dict(fam='method'), dict(fam='out'), dict(fam='outs'), dict(fam='tuple')]
+    jobs += [dict(fam='op'), dict(fam='method'), dict(fam='out'), dict(fam='outs'), dict(fam='defaults'), dict(fam='tuple')]
     for r in run_jobs('vf.props.c03', 'job', jobs, 'nrt'):
         chk.add('expansion', r)
-    chk.require_notes('expansion', ['class', 'op', 'method', 'out', 'outs', 'tuple'])
+    chk.require_notes('expansion', ['class', 'op', 'method', 'out', 'outs', 'defaults', 'tuple'])
     chk.programs = sum(a.get('paths', 0) for a in chk.parts.values())
     chk.bounds = {'classes': cl if tier == 'quick' else f'{len(allc)} classes found by introspection',
                   'argument_positions_with_lists': 2 if tier == 'quick' else 3, 'shapes': SHAPES,
